@@ -395,6 +395,10 @@ func (e *env) call(args *nfsv4.Compound4args) (res *nfsv4.Compound4res, pan stri
 		// The server's state is undefined after a panic.
 		return nil, "not sent: the server panicked earlier in this trace"
 	}
+	if e.stuck {
+		// The request would block on the lock that was left held.
+		return nil, "not sent: an earlier request left a server lock held"
+	}
 	defer func() {
 		if r := recover(); r != nil {
 			e.panicked.Store(true)
